@@ -51,10 +51,10 @@ func crashKind(r run.Resp) string {
 	return "other"
 }
 
-var c07Values = []string{"nil", bn.KwTrue, "0", "1", "(-1)", "0.5", "1" + strings.Repeat("0", 308), "(2 ** 63)", "(2 ** 1024)", "((2 ** 1024) - (2 ** 1024))", "(1 << 63)", "(~(1 << 63))", "((1 << 62) | 1)", "(-0)", "(-(2 ** 63))", "4294967296",
+var c07Values = []string{"nil", "bare()", "fell()", "unset", bn.KwTrue, "0", "1", "(-1)", "0.5", "1" + strings.Repeat("0", 308), "(2 ** 63)", "(2 ** 1024)", "((2 ** 1024) - (2 ** 1024))", "(1 << 63)", "(~(1 << 63))", "((1 << 62) | 1)", "(-0)", "(-(2 ** 63))", "4294967296",
 	"\"\"", "\"abc\"", "\"0\"", "\"১\"", "[]", "[1, 2]", "[[1]]", "{}", "{a: 1}", "f", bn.BLen, bn.BInput, "arr", "obj"}
 
-const c07Prelude = "ফাংশন f(a) { ফেরত a; }\nধরি arr = [1, 2, 3];\nধরি obj = {a: 1, b: [1]};\n"
+const c07Prelude = "ফাংশন f(a) { ফেরত a; }\nধরি arr = [1, 2, 3];\nধরি obj = {a: 1, b: [1]};\n" + bn.KwFun + " bare() { " + bn.KwReturn + "; }\n" + bn.KwFun + " fell() { }\n" + bn.KwVar + " unset;\n"
 
 func TestC07(t *testing.T) {
 	Main(t, "C07", func(c *Ctx) {
